@@ -187,6 +187,27 @@ def run(rep: Report, tier: str) -> None:  # noqa: C901
     # ---- R02.5 the builder the clause handlers rely on (real class, evaluated) ----
     rep.rule("R02.5", "SQLBuilder: every where() condition reaches the WHERE clause (conjunction) - the real class evaluated by E6")
     transp.builder_contract(P, rep, "R02.5", parts="w")
+    # ---- R02.8 a clause applied to a join result keeps ITS value of a component over the leftover alias#component column of the join ----
+    rep.rule("R02.8", "final un-qualification of join columns: a component a later clause (calc) has produced under its plain name is not replaced by the join's leftover alias#name column")
+    from sa.e6 import ExternalObj as _EO8, Interp as _I8, Raised as _R8
+    fu = P.func(f"{sm.TRQ}._unqualify_join_columns")
+    inner = 'SELECT "Id_1", "d2#Me_1", ("d2#Me_1" * 2) AS "Me_1" FROM (SELECT * EXCLUDE ("d1#Me_1") FROM j) AS t'
+    me8 = sm.MTranspiler()
+    me8._join_alias_map = {"d1#Me_1": "d1#Me_1", "d2#Me_1": "d2#Me_1"}
+    me8._consumed_join_aliases = {"d1#Me_1"}
+    me8.output_datasets = {"DS_r": _EO8({"components": {"Id_1": None, "Me_1": None}})}
+    try:
+        out8 = str(_I8(P, externals={"quote_name": lambda x: f'"{x}"'}).call(fu, {"self": me8, "ds_name": "DS_r", "query": inner}))
+    except Unmodelled as e:
+        raise AnalysisError(f"R02.8: _unqualify_join_columns outside the evaluator's language: {e}")
+    except _R8 as e:
+        raise AnalysisError(f"R02.8: _unqualify_join_columns raised {e.exc}")
+    outer_list = out8.split(" FROM (", 1)[0]
+    rep.instance("R02.8", "join-leftover/calc-overwrites", sample={"outer select": outer_list[:120]})
+    if re.search(r'"d2#Me_1"\s+AS\s+"Me_1"', outer_list):
+        rep.add(transp.fnd("R02.8", "join-leftover/calc-overwrites", fu, fu.node.lineno,
+                           f"inner_join(DS_1 as d1, DS_2 as d2 drop d1#Me_1)[calc Me_1 := Me_1 * 2]: the statement's query already delivers the calculated `Me_1`, but the final projection is "
+                           f"`{outer_list[:90]}` - it takes the join's leftover column d2#Me_1 instead, so the result holds the un-multiplied values"))
     # ---- R02.6 a clause leaves its operand as it found it (the same dataset may be read by another statement) ----
     rep.rule("R02.6", "clause validators (filter / calc / keep / drop / rename / sub / aggr ...) do not mutate the structure of their operand")
     from sa.checks.c12 import operand_mutations
